@@ -32,7 +32,7 @@ CLAIMED['C04'] = (
     'operating-year revenue (energy x price, + carbon) - O&M, cumulative = running sum, NPV = discounted sum under both conventions, '
     'VIR/MOIC definitions, payback lies within a turn year (repaired loop) / is 0 = N/A when there is none, with the kernel-checked '
     'counterexample for the loop as it stood on the pinned tree (defect F5, fixed in /repo); tied to the code on every run by whole runs '
-    '(reported series and metrics vs exact model; IRR clause via the exact NPV at the reported rate; add-on project cash flow likewise).',
+    '(reported series and metrics vs exact model; per-product revenue columns; IRR clause via the exact NPV at the reported rate, and irr_unique: a conventional cash flow has at most one rate above -100 % with zero NPV, so that rate IS the IRR; add-on project cash flow likewise, at the project\'s discount rate).',
     'kernel + propext/Classical.choice/Quot.sound; IRR value is numerical (numpy_financial) and only its defining clause is checked; float '
     'rounding and the sampled correspondence trusted (DESIGN §5)',
     'Lean 4 proof over an exact rational model + whole-run snapshot correspondence')
